@@ -65,7 +65,7 @@ def gen_stack(rng):
 
 def gen_list(rng):
     dtor = rng.randint(0, 1)
-    k = rng.choice([0, 0, 2, 3, 5])
+    k = rng.choice([0, 0, 2, 3, 5, 102, 103, 105])
     ops, n = [], 0
     for _ in range(rng.randint(3, 30)):
         r = rng.random()
